@@ -1,9 +1,10 @@
 (* Correspondence entry point for C19: each case carries what the implementation answered;
    check_case says whether the model answers the same. *)
-From QV Require Import Jssp.Valid.
+From QV Require Import Jssp.Valid Jssp.ResultObj.
 
 Inductive c19case :=
 | CVerdict (i : instance) (s : schedule) (valid : bool) (mk : option Z) (accessor_raises : bool)
+| CQueries (i : instance) (s : schedule) (qs : list query) (answers : list answer)   (* property reads on ONE fresh object, in this order *)
 | CMachine (n : string) (accepted : bool)
 | COperation (o : operation) (accepted : bool)
 | CJob (j : job) (accepted : bool)
@@ -16,6 +17,7 @@ Definition check_case (c : c19case) : bool :=
       result_eqb Bool.eqb (is_valid_impl i s) (Ok v)
       && result_eqb (option_eqb Z.eqb) (makespan_impl i s) (Ok mk)
       && Bool.eqb (negb (is_ok (valid_schedule_impl i s))) raises
+  | CQueries i s qs ans => result_eqb (list_eqb answer_eqb) (run_queries i s cache0 qs) (Ok ans)
   | CMachine n a => Bool.eqb (machine_ok n) a
   | COperation o a => Bool.eqb (operation_ok o) a
   | CJob j a => Bool.eqb (job_ok j) a
